@@ -36,7 +36,8 @@
 (***************************************************************************)
 EXTENDS Integers, FiniteSets, Sequences, TLC
 
-CONSTANTS AIds, BIds, Vals, Rel, BReq, Casc, MaxLevel
+CONSTANTS AIds, BIds, Vals, Rel, BReq, Casc, MaxLevel,
+          WithReads      \* FALSE: read actions are left out of Next (the replay asks reads through `view` in every state anyway)
 
 ASSUME Rel \in {"o2m", "o2o", "m2m", "mix"}
 ASSUME BReq \in BOOLEAN /\ Casc \in BOOLEAN
@@ -397,8 +398,8 @@ DeleteA(a) ==
              /\ known' = known \cup learnt
              /\ ev' = Ev("Delete", "A", a, 0, 0, "ok", {})
              /\ UNCHANGED <<db, tx, sess, loadedB>>
-          \/ /\ ~r[1]
-             /\ Fail("Delete", "A", a, 0, 0, "ConstraintError", learnt)
+          \/ /\ ~r[1]        \* a refusal needs to see one dependent only: nothing is learnt about the others
+             /\ Fail("Delete", "A", a, 0, 0, "ConstraintError", {<<"A", a>>})
           \/ TFail("Delete", "A", a, 0, 0)
 
 (* b.delete() *)
@@ -555,13 +556,15 @@ Reads  == \/ \E k \in AIds : GetV(k) \/ Coll(k) \/ LColl(k)
 
 Control == Begin \/ Tau \/ Flush \/ Commit \/ Rollback \/ EndOk \/ EndAfterFailure \/ EndExc
 
-Next == /\ (Modify \/ Reads \/ Control)
+Next == /\ (Modify \/ (WithReads /\ Reads) \/ Control)
         /\ view' = [ViewOf(cur') EXCEPT !.quiet = (sess' = "open" /\ ~Doomed' /\ ~Transient')]
 
 Spec == Init /\ [][Next]_vars
 SpecSeeded == InitSeeded /\ [][Next]_vars
 
 Bounded == TLCGet("level") <= MaxLevel
+NoEvView == <<db, tx, cur, sess, pendNew, pendDel, known, loadedB>>
+DataView == <<db, tx, cur, sess, pendNew, pendDel>>
 
 ---------------------------------------------------------------------------
 (* Properties checked by TLC *)
